@@ -11,7 +11,7 @@ package server
 //
 // The thin glue that metadata.go puts around a group (group map, "last member
 // removes the group", idempotency check of the coordinator change, the
-// goroutine that announces a deleted stream) is played by this driver; the
+// announcement of a deleted stream within its apply) is played by this driver; the
 // same behaviours run through the real glue in the Server.apply binding
 // (TestVerifGroupsFSM, harness/server/c06).
 
@@ -28,7 +28,6 @@ type v12Run struct {
 	servers []string
 	streams []string
 	groups  map[string]*consumerGroup
-	pend    map[string][]v12SD
 	parts   map[string]int32
 	idx     uint64
 	log     logger.Logger
@@ -36,10 +35,9 @@ type v12Run struct {
 }
 
 func (r *v12Run) state() v12State {
-	st := v12State{Gs: map[string]v12Group{}, Pend: map[string][]v12SD{}, Parts: map[string]int32{}, Idx: r.idx}
+	st := v12State{Gs: map[string]v12Group{}, Parts: map[string]int32{}, Idx: r.idx}
 	for _, v := range r.servers {
 		st.Gs[v] = v12Project(r.groups[v])
-		st.Pend[v] = append([]v12SD{}, r.pend[v]...)
 	}
 	for _, s := range r.streams {
 		st.Parts[s] = r.parts[s]
@@ -102,8 +100,14 @@ func (r *v12Run) step(id int, step map[string]interface{}) v12Event {
 			args["s"] = s
 			r.parts[s] = 0
 			r.idx++
+			// metadataAPI.removeStream: the deletion is announced to the groups
+			// before the apply returns
 			for _, v := range r.servers {
-				r.pend[v] = append(r.pend[v], v12SD{S: s, E: r.idx})
+				if g := r.groups[v]; g != nil {
+					if err := g.StreamDeleted(s, r.idx); err != nil {
+						obs.Err = "refused"
+					}
+				}
 			}
 		case "CreateGroup":
 			c, coord, streams := vStr(step, "c"), vStr(step, "coord"), vFStrs(step, "streams")
@@ -196,27 +200,6 @@ func (r *v12Run) step(id int, step map[string]interface{}) v12Event {
 					obs.Err = v12ErrClass(err)
 				}
 			}
-		case "RunSD":
-			v, s, e := vStr(step, "srv"), vStr(step, "s"), uint64(vInt(step, "e"))
-			args["srv"], args["s"], args["e"] = v, s, e
-			obs.Srv = v
-			found := -1
-			for i, x := range r.pend[v] {
-				if x.S == s && x.E == e {
-					found = i
-					break
-				}
-			}
-			if found < 0 {
-				obs.A, a = "Skip", "Skip"
-				return
-			}
-			r.pend[v] = append(r.pend[v][:found:found], r.pend[v][found+1:]...)
-			if g := r.groups[v]; g != nil {
-				if err := g.StreamDeleted(s, e); err != nil {
-					obs.Err = "refused"
-				}
-			}
 		case "Restore":
 			// what fsm.go Snapshot + Restore + finishedRecovery do with a group:
 			// members (with their streams), coordinator and epoch are written
@@ -225,7 +208,7 @@ func (r *v12Run) step(id int, step map[string]interface{}) v12Event {
 			args["srv"] = v
 			obs.Srv = v
 			g := r.groups[v]
-			if g == nil || len(r.pend[v]) > 0 {
+			if g == nil {
 				obs.A, a = "Skip", "Skip"
 				return
 			}
@@ -297,7 +280,6 @@ func TestVerifGroupsDirect(t *testing.T) {
 			servers: vFStrs(b.Cfg, "servers"),
 			streams: vFStrs(b.Cfg, "streams"),
 			groups:  map[string]*consumerGroup{},
-			pend:    map[string][]v12SD{},
 			parts:   map[string]int32{},
 			log:     lg,
 		}
